@@ -195,7 +195,7 @@ theorem positional_step (n : Node) (hl : n.kind = .list) (h : WellNumbered n.kid
     | sort k r =>
       dsimp only
       split
-      · split <;> exact h
+      · split <;> first | exact h | (split <;> exact h)
       · split
         · simp only [kids_withKids]; exact wn_renumber _
         · exact h
